@@ -5,3 +5,4 @@ cd "$(dirname "$0")"
 export CARGO_NET_OFFLINE=true
 (cd harness && cargo build --release --offline)
 (cd sched && cargo build --release --offline)
+(cd blackbox && cargo build --release --offline)
